@@ -158,6 +158,35 @@ static std::string castn(const std::string& which, const std::string& off)
   auto r = rlbox::sandbox_reinterpret_cast<char*>(*cell);
   return show(r.UNSAFE_unverified());
 }
+// sandbox_static_cast between class pointers related by inheritance: the address is adjusted exactly as static_cast adjusts it
+// (non-first base: + offset of the base subobject; null stays null) -- unlike sandbox_reinterpret_cast, which never adjusts
+template<typename Src, typename Dst> static std::string scastp(bool vol, const std::string& off)
+{
+  if (g_sb.get_sandbox_impl()->brk > (1u << 15)) g_sb.get_sandbox_impl()->brk = 16;
+  auto p = mkp<std::remove_pointer_t<Src>>(off);
+  if (vol) {
+    auto cell = g_sb.malloc_in_sandbox<Src>(); *cell = p;
+    auto r = rlbox::sandbox_static_cast<Dst>(*cell);
+    static_assert(std::is_same_v<decltype(r), tainted<Dst, SbxA>>);
+    return "ok " + addr((const void*)r.UNSAFE_unverified());
+  }
+  auto r = rlbox::sandbox_static_cast<Dst>(p);
+  return "ok " + addr((const void*)r.UNSAFE_unverified());
+}
+// a program that binds the opaque value by reference and goes on using the tainted variable: the opaque value is a COPY
+static std::string opqalias(i128 v1, i128 v2)
+{
+  if (!representable<long>(v1) || !representable<long>(v2)) return "badinput";
+  tainted<long, SbxA> a = (long)v1;
+  auto&& o = a.to_opaque();
+  a = (long)v2;
+  long got = rlbox::from_opaque(o).UNSAFE_unverified();
+  tainted<int[4], SbxA> arr; for (int i = 0; i < 4; i++) arr[i] = (int)(v1 % 1000) + i;
+  auto&& oa = arr.to_opaque();
+  arr[2] = (int)(v2 % 1000);
+  int got2 = rlbox::from_opaque(oa)[2].UNSAFE_unverified();
+  return "ok " + std::to_string(got) + " " + std::to_string(got2);
+}
 static tainted<long, SbxA> g_cb_val;
 static rlbox::tainted_opaque<long, SbxA> cb_opq(Sb&, rlbox::tainted_opaque<long, SbxA> a) { (void)a; return g_cb_val.to_opaque(); }
 // floating-point opaque values through a callback: parameter and result travel in floating-point registers, so the wrapper must
@@ -240,6 +269,14 @@ int main()
         return "badop";
       }
       if ((t[0] == "ccastn" || t[0] == "rcastn") && t.size() == 2) return castn(t[0], t[1]);
+      if (t[0] == "scastp" && t.size() == 4) {
+        bool vol = t[1] == "tvol";
+        if (t[2] == "derived>baseb") return scastp<CDerived*, CBaseB*>(vol, t[3]);
+        if (t[2] == "baseb>derived") return scastp<CBaseB*, CDerived*>(vol, t[3]);
+        if (t[2] == "derived>basea") return scastp<CDerived*, CBaseA*>(vol, t[3]);
+        return "badop";
+      }
+      if (t[0] == "opqalias" && t.size() == 3) return opqalias(parse_dec(t[1]), parse_dec(t[2]));
       if (t[0] == "ccast" && t.size() == 3) {
         bool vol = t[1] == "tvol";
         if (g_sb.get_sandbox_impl()->brk > (1u << 15)) g_sb.get_sandbox_impl()->brk = 16;
